@@ -67,6 +67,38 @@ SYNTHETIC = {
 }
 
 
+SYNTHETIC["syn-order"] = {
+    # host configurations, sensitive hosts and firewall rules listed OUT of canonical address order; every host differs
+    "subnets": [2, 1],
+    "topology": [[1, 1, 0], [1, 1, 1], [0, 1, 1]],
+    "sensitive_hosts": {"(2, 0)": 30, "(1, 1)": 20},
+    "os": ["linux", "windows"], "services": ["ssh", "ftp", "http"], "processes": ["tomcat", "daclsvc"],
+    "exploits": {"e_http": {"service": "http", "os": "None", "prob": 0.9, "cost": 3, "access": "root"},
+                 "e_ssh": {"service": "ssh", "os": "linux", "prob": 0.6, "cost": 1, "access": 1}},
+    "privilege_escalation": {"pe_tomcat": {"process": "tomcat", "os": "linux", "prob": 1.0, "cost": 1, "access": "root"}},
+    "service_scan_cost": 1, "os_scan_cost": 1, "subnet_scan_cost": 2, "process_scan_cost": 1,
+    "host_configurations": {
+        "(2, 0)": {"os": "windows", "services": ["http"], "processes": ["daclsvc"], "firewall": {"(1, 1)": ["http"]}},
+        "(1, 1)": {"os": "linux", "services": ["ssh", "ftp"], "processes": ["tomcat"]},
+        "(1, 0)": {"os": "linux", "services": ["ftp"], "processes": [], "value": 4}},
+    "firewall": {"(2, 1)": ["ssh"], "(1, 2)": ["http"], "(1, 0)": [], "(0, 1)": ["ssh", "ftp"]},
+    "step_limit": 40,
+}
+SYNTHETIC["syn-allsens"] = {
+    # every host is a sensitive host (the format allows as many sensitive hosts as hosts)
+    "subnets": [1, 1],
+    "topology": [[1, 1, 0], [1, 1, 1], [0, 1, 1]],
+    "sensitive_hosts": {"(1, 0)": 5, "(2, 0)": 9},
+    "os": ["linux"], "services": ["ssh"], "processes": ["tomcat"],
+    "exploits": {"e_ssh": {"service": "ssh", "os": "linux", "prob": 0.8, "cost": 1, "access": "user"}},
+    "privilege_escalation": {"pe_tomcat": {"process": "tomcat", "os": "linux", "prob": 1.0, "cost": 1, "access": "root"}},
+    "service_scan_cost": 1, "os_scan_cost": 1, "subnet_scan_cost": 1, "process_scan_cost": 1,
+    "host_configurations": {"(1, 0)": {"os": "linux", "services": ["ssh"], "processes": ["tomcat"]},
+                            "(2, 0)": {"os": "linux", "services": ["ssh"], "processes": ["tomcat"], "value": 9}},
+    "firewall": {"(0, 1)": ["ssh"], "(1, 0)": [], "(1, 2)": ["ssh"], "(2, 1)": []},
+}
+
+
 def base_documents(tree, tier):
     import yaml
     docs = {}
